@@ -13,7 +13,7 @@ opd   := (p <kind>) | (m <layer>+) | (h <name> <gen> <ni|it|(fw n)|(bi n)> (<HM>
 layer := (L <name> (d <key>*) <src>)       src := - | (own <meta>) | (sh <proto> <meta>|-)
 meta  := (M <tag> (ops (<MetaKeyId> <mv>)*) (named <key>*) <- | (ty <id>) | bad> <0|1 baseBad>)
 mv    := (f <beh>) | nc | (ch (<mid>*) <beh>|-)
-beh   := (r <rv>) | u | t | (c <n>)        rv := null | b0 | b1 | i<n> | str | self | lst | tup | iter
+beh   := (r <rv>) | u | t | (c <n>)        rv := null | b0 | b1 | i<n> | str | self | lst | tup | iter | rng | pmap | gen | innernext | inneriter
 Response: `<event>;<event>;… => <result>`, event = `n<tag>.<key> self=<av> args=[<av>,…]`.
 -/
 import KotoVerif.Common.Proto
@@ -54,6 +54,8 @@ def parseRV (s : String) : Option RV :=
   | "null" => some .null | "b0" => some (.bool false) | "b1" => some (.bool true)
   | "str" => some .str | "self" => some .self | "lst" => some .lst | "tup" => some .tup
   | "iter" => some .iter
+  | "rng" => some .rng | "pmap" => some .pmap | "gen" => some .gen
+  | "innernext" => some .innerNext | "inneriter" => some .innerIter
   | s => match s.toList with
     | 'i' :: rest => (String.ofList rest).toInt?.map RV.int
     | _ => none
@@ -145,6 +147,9 @@ def avStr : AV → String
   | .lst xs => "(l" ++ intsStr xs ++ ")"
   | .tup xs => "(t" ++ intsStr xs ++ ")"
   | .iter => "iter"
+  | .gen => "iter"
+  | .pmap => "m:?"
+  | .inner nx => if nx then "m:n60" else "m:n61"
   | .one v => "(l " ++ avStr v ++ ")"
   | .obj n => s!"m:n{n}"
   | .host n g => s!"h:n{n}#{g}"
